@@ -387,3 +387,68 @@ def load_known():
     if not os.path.exists(p):
         return {"findings": [], "fixed": []}
     return json.load(open(p))
+
+
+# ---------------------------------------------------------------------------
+# Big-number tier (DESIGN 4.3): rows recorded from the real code are written as a
+# TLA+ sequence of records and the property's clause operators — the same
+# module TLC uses on the small universe — are evaluated by Apalache/Z3 over
+# unbounded integers.  A picker variable makes the counterexample name the row.
+def apalache_steps(workdir, name, extends, fields, rows, stepok, timeout=1500, max_fail=5):
+    """fields: [(name, 'Int'|'Bool'|'Str')]; rows: list of dicts (ints may be
+    strings of digits); stepok: TLA+ text of the body of StepOK(s).
+    Returns (ok_rows, failing_row_indexes, wall_s)."""
+    def lit(v, ty):
+        if ty == "Bool":
+            return "TRUE" if v else "FALSE"
+        if ty == "Str":
+            return json.dumps(str(v))
+        return str(int(v))
+    ty = ", ".join(f"{n}: {t}" for n, t in fields)
+    t0 = time.time()
+    live = list(range(len(rows)))
+    failing = []
+    while live:
+        body = ",\n  ".join("[" + ", ".join(f"{n} |-> {lit(rows[i][n], t)}" for n, t in fields) + "]" for i in live)
+        mod = f"""------------------------------ MODULE {name} ------------------------------
+EXTENDS Integers, Sequences, {extends}
+VARIABLE
+  \\* @type: Int;
+  pick
+\\* @type: Seq({{{ty}}});
+Steps == <<
+  {body}
+>>
+\\* @type: ({{{ty}}}) => Bool;
+StepOK(s) ==
+{stepok}
+Init == pick \\in DOMAIN Steps
+Next == UNCHANGED pick
+Inv == StepOK(Steps[pick])
+=============================================================================
+"""
+        with open(os.path.join(workdir, name + ".tla"), "w") as f:
+            f.write(mod)
+        outdir = os.path.join(workdir, "_apalache-out")
+        shutil.rmtree(outdir, ignore_errors=True)
+        try:
+            p = subprocess.run(["apalache-mc", "check", "--length=0", "--init=Init", "--next=Next", "--inv=Inv",
+                                f"--out-dir={outdir}", name + ".tla"], cwd=workdir, capture_output=True, text=True,
+                               timeout=timeout, env=dict(os.environ, JVM_ARGS="-Xmx4g"))
+        except subprocess.TimeoutExpired:
+            raise Inconclusive(f"apalache timed out on {name}")
+        out = p.stdout + p.stderr
+        if "The outcome is: NoError" in out:
+            break
+        if "The outcome is: Error" not in out:
+            raise Inconclusive(f"apalache failed on {name}:\n{out[-2000:]}")
+        vio = glob.glob(os.path.join(outdir, "**", "violation1.tla"), recursive=True)
+        m = re.search(r"State0 ==\s*pick = (\d+)", open(vio[0]).read()) if vio else None
+        if not m:
+            raise Inconclusive(f"apalache counterexample not understood for {name}")
+        k = int(m.group(1)) - 1
+        failing.append(live[k])
+        del live[k]
+        if len(failing) >= max_fail:
+            break
+    return len(rows) - len(failing), failing, time.time() - t0
